@@ -85,6 +85,25 @@ def run_case(desc, ctx):
                               first_accessor=S[first][0], cleared=clear_at is not None)
                 elif (name in T0) != (name in T):
                     ctx.obs("order_equal", name)  # the failing query itself was already reported by run_script
+    # history: the connectivity was computed under the OTHER value of the sorting switch; the switch is then set, the connectivity is cleared
+    # (documented way to have it recomputed) and each accessor in turn is the first one asked: the answers must be those of a fresh mesh
+    if desc["seed"] % 3 == 0:
+        ctx.cls("history:switch_sorting_then_clear")
+        with build.config(sort_neighborhoods=not sorted_on):
+            ok, m = ctx.call("construct", build.surface, V, F, desc["vrows"], desc["irows"])
+            surfconn.run_script(ctx, m, S, list(range(nacc)), monitor="prequery")
+        with build.config(sort_neighborhoods=sorted_on):
+            rings = [i for i, (nm, _) in enumerate(S) if nm in ("vertex_to_vertices", "vertex_to_edges", "vertex_to_faces", "vertex_to_corners")]
+            first = rng.choice(rings) if rng.random() < 0.6 else rng.randrange(nacc)  # the sorted rings are what the switch changes
+            rest = [i for i in range(nacc) if i != first]
+            rng.shuffle(rest)
+            ctx.call("connectivity.clear", m.connectivity.clear, monitor="order")
+            ctx.call("clear_boundary_data", m.clear_boundary_data, monitor="order")
+            T = surfconn.run_script(ctx, m, S, [first] + rest)
+            for name, _ in S:
+                if name in T0 and name in T:
+                    ctx.check(T[name] == T0[name], "order_equal", name, "answer_after_clear_differs_from_fresh_mesh",
+                              "%s answers differently after (switch sorting, clear) than on a fresh mesh" % name, first_accessor=S[first][0])
     if len(F) <= 6:
         ctx.sample({"vertices": len(V), "faces": F, "class": z["cls"], "sorting": sorted_on,
                     "compared": "all %d accessors x %d query orders against the face-list reference" % (nacc, desc["orders"] + 1)})
